@@ -316,6 +316,48 @@ def check_configured(sh, doc, text, rng, via):
         sh.violation('partial', f'partial:db-raises:{type(e).__name__}', str(e), case)
 
 
+def check_twin_edit(sh, doc, rng):
+    """'rendering has no side effects ... leaves later renderings unchanged': one database is rendered, its twin is not; the
+    same in-place edit is applied to both; both renderings of the two must then be identical"""
+    db, twin = apibuild.build(doc, api_inline=True), apibuild.build(doc, api_inline=True)
+    try:
+        db.sql, db.dbml
+        for t in db.tables:
+            t.sql, t.dbml
+    except Exception:  # noqa
+        return
+    edits = []
+    for k_, (r, r2) in enumerate(zip(db.refs, twin.refs)):
+        if rng.random() < 0.5 and r.type in ('>', '<') and r.inline:
+            r.type = r2.type = '<' if r.type == '>' else '>'
+            edits.append('flip-kind')
+        elif rng.random() < 0.3 and len(r.col1) == 1 and len(db.tables) >= 3:
+            cands = [(ti, ci) for ti, t in enumerate(db.tables) if t is not r.col1[0].table and t is not r.col2[0].table for ci in range(len(t.columns))]
+            if cands:
+                ti, ci = rng.choice(cands)
+                n1 = [db.tables[ti].columns[ci]]
+                if not any(q is not r and q.type == r.type and list(q.col1) == n1 and list(q.col2) == list(r.col2) for q in db.refs):
+                    r.col1, r2.col1 = n1, [twin.tables[ti].columns[ci]]
+                    edits.append('reassign-endpoint')
+    if db.tables and rng.random() < 0.5:
+        k_ = rng.randrange(len(db.tables))
+        db.tables[k_].name = twin.tables[k_].name = db.tables[k_].name + 'Twq'
+        edits.append('rename')
+    if not edits:
+        return
+    for what in ('sql', 'dbml'):
+        outs = []
+        for d_ in (db, twin):
+            try:
+                outs.append(getattr(d_, what))
+            except Exception as e:  # noqa
+                outs.append(('EXC', type(e).__name__))
+        sh.count('obs.twin_edit_checks')
+        if outs[0] != outs[1]:
+            sh.violation('pure', f'purity:earlier-rendering-changes-later-one:db.{what}', f'after {edits}: the database that had been rendered before the edit renders differently from its never-rendered twin',
+                         {'kind': 'twin', 'case_seed': getattr(sh, 'case_seed', None)})
+
+
 def check_detached(sh, doc, rng):
     """elements that are not attached to a database use the default renderers"""
     from pydbml.renderer.sql.default import DefaultSQLRenderer
@@ -347,6 +389,35 @@ def check_detached(sh, doc, rng):
             sh.count('obs.detached_via_equal_copy')
             if log or got != want or real.database is not None:
                 sh.violation('detached', f'detached:ref-deleted-via-equal-copy.{what}', f'the reference that left db.refs still renders through the database renderers ({len(log)} calls) / keeps its database link',
+                             {'kind': 'detached', 'case_seed': getattr(sh, 'case_seed', None)})
+    # an element whose add() was REFUSED stays detached (default renderers, no database link)
+    from pydbml.classes import Enum, TableGroup, Table, Column
+    refused = []
+    for e in db.enums[:2]:
+        refused.append(('enum', Enum(e.name, ['other_item'], schema=e.schema)))
+    for g in db.table_groups[:1]:
+        refused.append(('group', TableGroup(g.name, [])))
+    for t in db.tables[:1]:
+        refused.append(('table', Table(t.name, schema=t.schema, columns=[Column('rc', 'int')])))
+    for kind, el in refused:
+        try:
+            db.add(el)
+            continue            # (accepted: nothing to check here)
+        except Exception:  # noqa
+            pass
+        for what, R in (('sql', DefaultSQLRenderer), ('dbml', DefaultDBMLRenderer)):
+            if not hasattr(type(el), what):
+                continue
+            log.clear()
+            try:
+                got = getattr(el, what)
+                want = R.render(el)
+            except Exception:  # noqa
+                continue
+            sh.count('obs.detached_checks')
+            sh.count('obs.refused_elements')
+            if log or got != want or getattr(el, 'database', None) is not None:
+                sh.violation('detached', f'detached:refused-{kind}.{what}', f'an element whose add() was refused renders through the database renderers ({len(log)} calls) / has a database link',
                              {'kind': 'detached', 'case_seed': getattr(sh, 'case_seed', None)})
     victims = [('enum', e) for e in db.enums] + [('group', g) for g in db.table_groups]
     if db.project is not None:
@@ -414,6 +485,7 @@ def one_case(sh, case_seed, tracer):
         if renders:
             check_default(sh, dbd, doc, rng, tracer, 'api-afterdelete')
     check_detached(sh, doc, rng)
+    check_twin_edit(sh, doc, rng)
 
 
 def plan(tier, seed):
